@@ -3,6 +3,7 @@ package main
 // C07 — no client behaviour can wedge or crash the emulator.
 
 import (
+	"encoding/hex"
 	"encoding/json"
 	"fmt"
 	"os"
@@ -178,10 +179,16 @@ func c07Check(c c07Case) (out kit.Outcome) {
 		id := platformRequestID(tr, tag)
 		// bodies posted for this invocation's id by any process, and init-error payloads posted meanwhile
 		allowed := map[string]bool{}
+		var sentParts []string // uploads broken off half way: the part that was really sent
 		for i := range tr.Events {
 			e := &tr.Events[i]
 			if e.Kind != "issue" || e.Body == nil || e.Seq > ret.Seq {
 				continue
+			}
+			if h, ok := e.Extra["sentHex"].(string); ok && ((e.Call == "rt.initerror") || ((e.Call == "rt.response" || e.Call == "rt.error") && e.ReqID == id && id != "")) {
+				if b, err := hex.DecodeString(h); err == nil {
+					sentParts = append(sentParts, string(b))
+				}
 			}
 			if (e.Call == "rt.response" || e.Call == "rt.error") && e.ReqID == id && id != "" {
 				allowed[e.Body.Sha] = true
@@ -203,6 +210,11 @@ func c07Check(c c07Case) (out kit.Outcome) {
 			return true, ret.Status != 200
 		case ret.Status == 502 && ret.Body != nil && ret.Body.Len == 0:
 			return true, true
+		case ret.Text != "" && c07PrefixOfAny(ret.Text, sentParts):
+			// the process broke its upload off: what it posted is what it had sent by then (the emulator hands on the part of
+			// an init error report that arrived); an empty body is not "what the runtime posted"
+			out.Label("partial-upload-delivered")
+			return true, ret.Status != 200
 		case json.Unmarshal([]byte(ret.Text), &pe) == nil && platformErrorTypes[pe.ErrorType]:
 			return true, true
 		case ret.Status >= 400 && ret.Status < 500 && ret.Body != nil && ret.Body.Len == 0:
@@ -280,6 +292,15 @@ func c07Check(c c07Case) (out kit.Outcome) {
 		out.Label(fmt.Sprintf("tail:failures=%d", fails))
 	}
 	return out
+}
+
+func c07PrefixOfAny(got string, parts []string) bool {
+	for _, p := range parts {
+		if strings.HasPrefix(p, got) {
+			return true
+		}
+	}
+	return false
 }
 
 func w[T any](v T, n int) []T {
